@@ -240,7 +240,7 @@ pub fn c12(ctx: &Ctx) {
                     first_samples.lock().unwrap().push(s.json());
                 }
                 // out-of-range sample sweep: u16 storage, every depth 8..15, on well-formed geometry
-                let sweep = if full { true } else { s.pad == frames::PADS[0] || s.pad == frames::PADS[7] || s.pad == frames::PADS[3] };
+                let sweep = if full { true } else { s.pad == frames::PADS[0] || s.pad == frames::PADS[7] || s.pad == frames::PADS[3] || s.pad == frames::PADS[2] || s.pad == frames::PADS[6] };
                 if !s.u8s && s.depth == 10 && w <= 12 && sweep {
                     let depths: &[u8] = if full { &[8, 9, 10, 11, 12, 13, 14, 15] } else { &[8, 9, 12, 15] };
                     for &depth in depths {
